@@ -35,6 +35,9 @@ type WL struct {
 	LoadBatch  int         `json:"load_batch"`
 	ShortReads int         `json:"short_reads"` // cap on every file / stream read (0 = none)
 	Edit       string      `json:"edit"`        // delnode | addedge | kind | none
+	// Interrupt > 0: the dump is produced in two sittings - a database error on the k-th call stops the
+	// first one and a resume finishes it - before the same round-trip checks run (a resumed dump is a dump).
+	Interrupt uint32 `json:"interrupt,omitempty"`
 }
 
 func gen(r *rand.Rand) WL {
@@ -50,6 +53,12 @@ func gen(r *rand.Rand) WL {
 		w.ShortReads = 1 + r.IntN(7)
 	}
 	w.Edit = []string{"delnode", "addedge", "kind", "none"}[r.IntN(4)]
+	if r.IntN(4) == 0 {
+		w.Interrupt = 1 + r.Uint32()%60
+		if r.IntN(2) == 0 {
+			w.Opts.Shard = 1 + r.IntN(2) // several fragments per phase
+		}
+	}
 	return w
 }
 
@@ -130,8 +139,35 @@ func exec(t *testing.T, w WL, cfg simrt.Config) simh.Outcome {
 	defer simos.Disable()
 	var res retriever.DumpResult
 	stor.SimSteps, stor.SimTasks = 0, 0
-	if c, d := stor.UnderSim(t, cfg, "dump", func() { res, err = retriever.Dump(ctx, src, "simdb", stor.Targets(w.DB), stor.DumpOptions(out, w.Opts)) }); c != "" {
+	dopts := stor.DumpOptions(out, w.Opts)
+	if w.Interrupt > 0 {
+		src.Hook = func(_ context.Context, site string) error {
+			if src.Calls == int(w.Interrupt) {
+				return fmt.Errorf("%s: injected database error", site)
+			}
+			return nil
+		}
+	}
+	if c, d := stor.UnderSim(t, cfg, "dump", func() { res, err = retriever.Dump(ctx, src, "simdb", stor.Targets(w.DB), dopts) }); c != "" {
 		return fail(c, d)
+	}
+	if w.Interrupt > 0 && err != nil {
+		o.Counters["dump_interrupted"]++
+		src = stor.Build(w.DB)
+		dopts.Resume = true
+		if c, d := stor.UnderSim(t, cfg, "resume", func() { res, err = retriever.Dump(ctx, src, "simdb", stor.Targets(w.DB), dopts) }); c != "" {
+			return fail(c, d)
+		}
+		if err != nil {
+			// a refusal is allowed; start over
+			o.Counters["resume_refused_fresh_dump"]++
+			dopts.Resume, dopts.Force = false, true
+			if c, d := stor.UnderSim(t, cfg, "redump", func() { res, err = retriever.Dump(ctx, src, "simdb", stor.Targets(w.DB), dopts) }); c != "" {
+				return fail(c, d)
+			}
+		} else {
+			o.Counters["dump_completed_by_resume"]++
+		}
 	}
 	if err != nil {
 		return fail("oracle:dump_failed", "fault-free dump returned "+err.Error())
